@@ -1,13 +1,13 @@
 SPECIFICATION Spec
 CONSTANTS Unit = 21000
-          Limits = {3, 4, 5}
+          Limits = {3, 4}
           PlainAccts = 2
           BlobAccts = 1
           MaxLen = 2
-          BlobMaxLen = 2
+          BlobMaxLen = 1
           Tips = {1, 2}
           GasShapes <- GS3
-          PlainCls = {"ok", "nonceLow", "invalid", "evicted"}
+          PlainCls = {"ok", "nonceLow", "invalid"}
           BlobCls = {"ok", "invalid"}
           BlobCounts = {1, 2}
           MaxBlobsSet = {1, 2}
